@@ -35,6 +35,13 @@ def modes_for(salt):
     return modes
 
 
+def default_fields_for(salt):
+    """(typename, fieldname) -> is the field left to the default resolver (a deferring method of the parent value)?"""
+    def pred(tn, fn):
+        return zlib.crc32(("%s|%s|%s|default" % (salt, tn, fn)).encode()) % 4 == 0
+    return pred
+
+
 def make_world(eff, wj, boom):
     return RX.World(eff, wj["salt"], wj["p_err"], wj["p_null"], wj["p_null_item"], boom_paths=boom)
 
@@ -75,8 +82,9 @@ def prepare(case):
     from py_gql.lang import parse
     from py_gql.validation import validate_ast
     spec = GS.Spec(case["spec"])
-    sync_schema, eff = H.make_schema(spec, case["mode"])
-    async_schema, _ = H.make_schema(spec, case["mode"], wrap=SR.delivery_wrap(modes_for(case["world"]["salt"])))
+    df = default_fields_for(case["world"]["salt"]) if case.get("default_resolved", True) else None
+    sync_schema, eff = H.make_schema(spec, case["mode"], default_fields=df)
+    async_schema, _ = H.make_schema(spec, case["mode"], wrap=SR.delivery_wrap(modes_for(case["world"]["salt"])), default_fields=df)
     req = case["request"]
     try:
         if validate_ast(sync_schema, parse(req["text"])).errors:
